@@ -38,7 +38,7 @@ Lemma second_responder_faulty p d h w recv_time id r a b c e :
   p_peer p = PDMeasuring id (Some r) a b c e ->
   h_seq h = id -> pi_eqb r (h_source h) = false ->
   exists o, handle_peer_delay_response p d h w (p_identity p) recv_time
-            = Ok (port_with_state p PFaulty, d, o)
+            = Ok (port_with_state (port_with_peer p PDEmpty) PFaulty, d, o)
             /\ forall m, ~ In (OFilterMeas m) o.
 Proof.
   intros Hp Hid Hne. unfold handle_peer_delay_response.
@@ -47,8 +47,18 @@ Proof.
   rewrite Hself. cbn [negb]. rewrite Hp. rewrite Hid, Z.eqb_refl. cbn [negb].
   rewrite Hne. cbn [negb]. unfold go_faulty, set_forced, ret.
   eexists. split; [reflexivity|].
-  intros m Hin. destruct (is_slave (p_state p) || is_faulty (p_state p) || is_faulty PFaulty);
+  intros m Hin. match type of Hin with context [if ?c then _ else _] => destruct c end;
     cbn in Hin; intuition discriminate.
+Qed.
+
+Lemma contested_exchange_dead p d :
+  p_peer p = PDEmpty ->
+  (forall h w rq ts, handle_peer_delay_response p d h w rq ts = Ok (p, d, [])) /\
+  (forall h w rq, handle_peer_delay_follow_up p d h w rq = Ok (p, d, [])) /\
+  (forall id ts, handle_pdelay_timestamp p d id ts = Ok (p, d, [])).
+Proof.
+  intros H. unfold handle_peer_delay_response, handle_peer_delay_follow_up, handle_pdelay_timestamp.
+  rewrite H. repeat split; intros; try destruct (negb _); reflexivity.
 Qed.
 
 Lemma second_responder_after_measurement_faulty p d h w recv_time id r :
